@@ -147,6 +147,7 @@ type caseDoc struct {
 	MsgAPI  bool   `json:"msg_api"`
 	Ctx     bool   `json:"contexts"`
 	Fan     bool   `json:"two_receivers"`
+	Stale   bool   `json:"stale_header"`
 	RSeed   string `json:"rseed"`
 }
 
@@ -210,6 +211,10 @@ func runCase(t *rapid.T, cfg config) {
 	doc.Pipelnd = pipelined
 	msgAPI := cfg.raw || rapid.Bool().Draw(t, "msgAPI")
 	doc.MsgAPI = msgAPI
+	// Cooked sockets of the patterns that own the header (they write or strip it themselves) take no
+	// header from the application: a message re-used from elsewhere may still carry one.
+	stale := !cfg.raw && msgAPI && pat.name != "pair" && pat.name != "pubsub" && pat.name != "pushpull" && rapid.IntRange(0, 3).Draw(t, "staleHeader") == 0
+	doc.Stale = stale
 
 	a, b := fixture.New(an), fixture.New(bn)
 	defer a.Close()
@@ -286,6 +291,8 @@ func runCase(t *rapid.T, cfg config) {
 		m.Body = append(m.Body, body...)
 		if hdr != nil {
 			m.Header = append(m.Header, hdr...)
+		} else if stale {
+			m.Header = append(m.Header, 0x80, 0, 0, 1, 0x80, 0, 0, 2)
 		}
 		return s.SendMsg(m)
 	}
@@ -413,6 +420,9 @@ func runCase(t *rapid.T, cfg config) {
 	stats.Class("pat:" + pat.name)
 	if fan {
 		stats.Class("two_receivers")
+	}
+	if stale {
+		stats.Class("cooked_send_with_stale_header")
 	}
 	nt := false
 	cls := map[int]bool{}
